@@ -278,19 +278,20 @@ func runW(in WIn, dir string) (ob Obs, batches [][]byte, initB []byte, crash str
 
 func coqRLE(b []byte) string {
 	if len(b) == 0 {
-		return "(@nil (N*N))"
+		return "(@nil int)"
 	}
+	// one run = byte + 256*count, as a primitive-integer literal
 	var runs []string
 	for i := 0; i < len(b); {
 		j := i
 		for j < len(b) && b[j] == b[i] {
 			j++
 		}
-		runs = append(runs, fmt.Sprintf("(%d,%d)", b[i], j-i))
+		runs = append(runs, strconv.Itoa(int(b[i])+256*(j-i)))
 		i = j
 	}
 	if len(runs) <= 400 {
-		return "[" + strings.Join(runs, ";") + "]%N"
+		return "[" + strings.Join(runs, ";") + "]%uint63"
 	}
 	var parts []string
 	for i := 0; i < len(runs); i += 400 {
@@ -298,7 +299,7 @@ func coqRLE(b []byte) string {
 		if j > len(runs) {
 			j = len(runs)
 		}
-		parts = append(parts, "["+strings.Join(runs[i:j], ";")+"]%N")
+		parts = append(parts, "["+strings.Join(runs[i:j], ";")+"]%uint63")
 	}
 	return "(List.concat [" + strings.Join(parts, ";\n ") + "])"
 }
@@ -885,5 +886,5 @@ func main() {
 		dist[fmt.Sprintf("rotated-files-at-end:%d", nr)]++
 	}
 	dist["clock-ambiguous-reruns"] = int(atomic.LoadInt64(&clockRetries))
-	hx.Write(o, "C07", "rotate", "From HT Require Import Common.Bytes C07.Model C07.Check.", "case", cases, dist, nil, 60)
+	hx.Write(o, "C07", "rotate", "From Coq Require Import Uint63.\nFrom HT Require Import Common.Bytes C07.Model C07.Check.", "case", cases, dist, nil, 60)
 }
